@@ -46,6 +46,8 @@ def build_snapshot(shape, rng):
         snap.add_watch_result(WatchResult('WATCH', 'expr' + t, VariableId('1', 'expr' + t) if n else VariableId('9', 'q')))
     if w in ('error', 'good_and_error'):
         snap.add_watch_result(WatchResult('WATCH', 'bad' + t, None, 'boom ' + t))
+    if w == 'error_empty':
+        snap.add_watch_result(WatchResult('WATCH', 'bad' + t, None, ''))
     if w == 'log_and_capture':
         snap.add_watch_result(WatchResult('LOG', 'name', VariableId('1', 'name')))
         snap.add_watch_result(WatchResult('CAPTURE', 'return', VariableId('1', 'return')))
@@ -318,7 +320,7 @@ def run(c):
     c.mc_expect_violation('Wire', dict(constants=dict(DropOnConvertError=True, Rich=False), invariants=['NothingDropped'],
                                        deadlock=False), 'deviation DropOnConvertError', what='NothingDropped')
     sim = tlc.simulate('Wire', dict(constants=dict(DropOnConvertError=False, Rich=True), invariants=INVS, deadlock=False),
-                       num=250 if quick else 6000, depth=14, seed=c.seed + 9)
+                       num=250 if quick else 60000, depth=14, seed=c.seed + 9)
     c.transitions += sim.generated
     seen = set()
     shown = 0
@@ -345,7 +347,7 @@ def run(c):
                 shown += 1
                 if shown >= 8:
                     break
-    collector_leg(c, rng, wd, 60 if quick else 1500)
+    collector_leg(c, rng, wd, 60 if quick else 5000)
 
 
 if __name__ == '__main__':
